@@ -101,7 +101,7 @@ def enumerate_cases(tier):
 
 
 def budget(tier):
-    return 2500 if tier == "quick" else 150000
+    return 2500 if tier == "quick" else 100000
 
 
 def _kinds(case):
